@@ -372,3 +372,88 @@ def h4(rep, F):
         if len([c for c in seq if c in offs]) < 3:
             rep.fail_closed("H4: could not relate the Display of %s to the offsets of parse (%s)" % (dty, seq))
     return r
+
+
+# ---------------------------------------------------------------------------
+# H5: each header parser is fed from its own block
+
+BLOCK_OF = {"BasicHeader": 1, "ApplicationHeader": 2, "UserHeader": 3, "Trailer": 5}
+
+
+def h5(rep, F):
+    """In every function that cuts a message into blocks (`extract_block(text, k)`) and hands the pieces to the
+    header parsers, the text that reaches `BasicHeader::parse` comes from block 1, `ApplicationHeader::parse` from
+    block 2, `UserHeader::parse` from block 3, `Trailer::parse` from block 5 and `parse_from_block4` from block 4
+    (traced through `let`, `unwrap_or_default`, `map(|b| ..)`, `as_deref`, `if let Some(b) = ..`)."""
+    r = rep.rule("H5", "each header parser is fed from its own block: in every function that calls extract_block and "
+                       "a header / block-4 parser, the argument of the parser traces back to extract_block with the "
+                       "index of that block (1 basic, 2 application, 3 user, 4 text, 5 trailer)", floor=8)
+    for b in F.bodies:
+        if "body" not in b or b.get("exp") or b["kind"] not in ("Fn", "AssocFn"):
+            continue
+        src = {}      # local id -> block index
+        body = b["body"]
+
+        def index_of(e, depth=0):
+            """block index the value of e was extracted with, or None"""
+            if depth > 6 or not isinstance(e, dict):
+                return None
+            for x in walk(e):
+                if x.get("k") in ("call", "mcall") and callee(x).endswith("::extract_block"):
+                    a = x.get("args") or []
+                    v = lit_val(peel(a[-1])) if a else None
+                    return v if isinstance(v, int) else None
+            ids = [x["id"] for x in walk(e) if x.get("k") == "local" and x.get("id") in src]
+            return src[ids[0]] if ids else None
+
+        if not any(x.get("k") in ("call", "mcall") and callee(x).endswith("::extract_block") for x in walk(body)):
+            continue
+        for _ in range(3):
+            for n in walk(body):
+                if n.get("k") in ("let", "letx") and n.get("init") is not None:
+                    v = index_of(n["init"])
+                    if v is not None:
+                        for q in _pat_binds(n.get("pat")):
+                            src.setdefault(q["id"], v)
+                if n.get("k") == "mcall" and n.get("m") in ("map", "and_then", "is_some_and", "map_or") and n.get("args"):
+                    v = index_of(n.get("recv"))
+                    cl = n["args"][-1]
+                    if v is not None and isinstance(cl, dict) and cl.get("k") == "closure":
+                        for p_ in cl.get("params") or []:
+                            for q in _pat_binds(p_):
+                                src.setdefault(q["id"], v)
+        for n in walk(body):
+            if n.get("k") not in ("call", "mcall"):
+                continue
+            f = callee(n)
+            want = None
+            m = re.search(r"headers::(BasicHeader|ApplicationHeader|UserHeader|Trailer)::parse$", f)
+            if m:
+                want = BLOCK_OF[m.group(1)]
+            elif f.endswith("::parse_from_block4"):
+                want = 4
+            if want is None:
+                continue
+            args = list(n.get("args") or [])
+            got = index_of(args[0]) if args else None
+            if got is None:
+                continue
+            r["instances"] += 1
+            if got != want:
+                rep.add(Finding("H5", b["path"], "block%d-from-%d" % (want, got),
+                                "%s hands the text of block %d to %s, which parses block %d: that part of the message "
+                                "is read from the wrong block (lost, or replaced by another block's content)"
+                                % (b["path"], got, f.rsplit("::", 2)[-2] + "::" + f.rsplit("::", 1)[-1], want),
+                                b["file"], n.get("ln")))
+    return r
+
+
+def _pat_binds(p):
+    if not isinstance(p, dict):
+        return
+    if p.get("k") == "bind":
+        yield p
+    for q in p.get("pats") or []:
+        yield from _pat_binds(q)
+    if p.get("pat"):
+        yield from _pat_binds(p["pat"])
